@@ -23,7 +23,7 @@ def case_of(sj, group, i):
 
 def describe(group, case):
     if group == "bfs":
-        return ("on a fresh Connections, after [%s] the operation %s (result %s) leaves maps that break the bookkeeping invariant"
+        return ("on a fresh Connections, after [%s] the operation %s (result %s) leaves maps that break the bookkeeping invariant (or the connection became introduced other than from connected with its gnet id)"
                 % (case.get("path"), case.get("op"), case.get("result")))
     return "random event sequence [%s] breaks the bookkeeping invariant" % case.get("ops", case)
 
